@@ -296,7 +296,7 @@ class Norm(Operation):
             self.ord = ord if ord is not None else 2
 
             # self._norm is broadcast-compatible with `tensor`
-            if self.keepdims is False:
+            if not self.keepdims:
                 self._norm = _expand_dims(
                     out, axis=self.axis, original_ndmin=tensor.ndim
                 )
@@ -309,7 +309,7 @@ class Norm(Operation):
         (tensor,) = self.variables
         x = tensor.data
 
-        if self.keepdims is False:
+        if not self.keepdims:
             # is broadcast-compatible with `tensor`
             grad = _expand_dims(grad, axis=self.axis, original_ndmin=tensor.ndim)
 
